@@ -6,9 +6,10 @@
 
    The model is faithful to the code that exists (epgpy/operator.py, diff.py, functions.py):
    - DiffOperator.__call__ (T, E, S, ScalarOp, MatrixOp ...): one semantics [dstep] for both modes;
-   - Operator.__call__ of a non-differentiable operator and of a MultiOperator: out of place the
-     result is built on StateMatrix.copy(), which has no order1/order2 attributes (partials dropped);
-     in place the partials are left untouched;
+   - Operator.__call__ of a non-differentiable operator and of a MultiOperator (since /repo 8521bf9): the
+     operator also acts on every order1/order2 partial carried by the state (Operator._apply_partial; a
+     MultiOperator forwards to its members), in place AND out of place -- out of place on copies, the
+     input's partials are untouched;
    - StateMatrix.copy(): states/equilibrium/options copied, partials dropped;
    - simulate(seq, init=sm, max_nstate=n, probe=p): runs on init.copy() with merged options, applies every
      operator in place, records probe values.
@@ -94,20 +95,21 @@ Definition drop_partials (d : dstate) : dstate := mkD (d_main d) [] [] (d_ok d).
 (* in place: DiffOperator.__call__ / Operator.__call__ with inplace=True  ==  Diff.dstep *)
 Definition apply_in (n : option nat) (i : dinstr) (d : dstate) : dstate := dstep (with_nmax n i) d.
 
-(* out of place: the same for a DiffOperator; a plain operator works on sm.copy() (no partials) *)
-Definition apply_out (n : option nat) (i : dinstr) (d : dstate) : dstate :=
-  match i with
-  | DOp _ => dstep (with_nmax n i) d
-  | DPlain _ => dstep (with_nmax n i) (drop_partials d)
-  end.
+(* out of place: the same value, for a DiffOperator and for a plain operator (Operator.__call__ copies the state
+   and every partial through prepare(), then applies _apply / _apply_partial to the copies) *)
+Definition apply_out (n : option nat) (i : dinstr) (d : dstate) : dstate := dstep (with_nmax n i) d.
 
-(* MultiOperator: Operator.__call__ + for op in operators: op._apply(sm) -- partials never touched *)
+(* MultiOperator: Operator.__call__ + for op in operators: op._apply(sm); every partial goes through
+   for op in operators: op._apply_partial(part)  (no derivative terms are added: only propagation) *)
 Definition multi_main (n : option nat) (l : list dinstr) (d : dstate) : sm S :=
   run (map (fun i => prim_op (with_nmax n i)) l) (d_main d).
+Definition multi_partial (n : option nat) (l : list dinstr) (s : sm S) : sm S :=
+  fold_left (fun s i => apply_partial (prim_op (with_nmax n i)) s) l s.
+Definition multi_partials {Kt} (n : option nat) (l : list dinstr) (ps : list (Kt * sm S)) : list (Kt * sm S) :=
+  map (fun kv => (fst kv, multi_partial n l (snd kv))) ps.
 Definition multi_in (n : option nat) (l : list dinstr) (d : dstate) : dstate :=
-  mkD (multi_main n l d) (d_p1 d) (d_p2 d) (d_ok d).
-Definition multi_out (n : option nat) (l : list dinstr) (d : dstate) : dstate :=
-  mkD (multi_main n l d) [] [] (d_ok d).
+  mkD (multi_main n l d) (multi_partials n l (d_p1 d)) (multi_partials n l (d_p2 d)) (d_ok d).
+Definition multi_out (n : option nat) (l : list dinstr) (d : dstate) : dstate := multi_in n l d.
 
 Definition apply_value (vo vs : value) (inplace : bool) : value :=
   match vo, vs with
